@@ -224,3 +224,55 @@ def simulate(L, stop_mode=False):
         pass
     return {"errors": errors, "delivered": delivered, "events": events, "accepted": finished and not errors,
             "finished": finished, "states": states}
+
+
+# ---------------------------------------------------------------- real-text paths to every parser state
+
+REP = {  # representative pool line (en) per token kind
+    "FeatureLine": "Feature: F", "RuleLine": "Rule: R", "BackgroundLine": "Background: B", "ScenarioLine": "Scenario: S",
+    "ExamplesLine": "Examples: X", "StepLine": "Given x", "TagLine": "@t1 @t2", "TableRow": "| a | b |",
+    "DocStringSeparator": '"""', "Comment": "# comment", "Language": "# language: en", "Empty": "", "Other": "free text",
+}
+_paths = None
+
+
+def state_paths(maxdepth=9):
+    """{state: (L, i)}: an error-free pool-line sequence L (en) whose simulation is in `state`
+    when line i (0-based; i == len(L) is EOF) is about to be processed.  Breadth-first over
+    sequences of representative lines, de-duplicated by (state reached, trailing tag/comment/blank run)."""
+    global _paths
+    if _paths is not None:
+        return _paths
+    reps = [(0, IDX[t]) for t in REP.values()]
+    found = {}
+    frontier = [[]]
+    seen = set()
+    for depth in range(maxdepth + 1):
+        nxt = []
+        for L in frontier:
+            sim = simulate(L, False)
+            if sim["errors"] and not (len(sim["errors"]) == 1 and "unexpected end of file" in sim["errors"][0]):
+                continue
+            for i, s in enumerate(sim["states"]):
+                if s not in found:
+                    found[s] = (list(L), i)
+            trail = []
+            for ind, p in reversed(L):
+                k = POOL[p].kind.get("en") if POOL[p].kind else None
+                if k in ("TagLine", "Comment", "Empty") and len(trail) < 2:
+                    trail.append(k)
+                else:
+                    break
+            # the reading of a trailing tag/comment/blank run depends on what follows it, so the
+            # state in which the run started is part of the key
+            key = (sim["states"][len(L) - len(trail)], sim["states"][-1], tuple(trail))
+            if key in seen:
+                continue
+            seen.add(key)
+            for rep in reps:
+                nxt.append(L + [rep])
+        frontier = nxt
+        if len(found) >= 42:
+            break
+    _paths = found
+    return found
